@@ -93,13 +93,13 @@ func buildEverything(seed uint64, prop string, o everythingOpts) (*kernel.Trace,
 			}
 		}
 	}
-	ew.gw = &govWorld{Voter: spec.Clients[0], Attackers: spec.Clients[1:], DistCfg: distCfg, MinterCfg: mcfg, SaneMinter: true}
+	ew.gw = &govWorld{Voter: spec.Clients[0], Attackers: spec.Clients[1:], DistCfg: distCfg, MinterCfg: mcfg, SaneMinter: true, OddNames: prop == "C12"}
 
 	rr := r.Fork(4)
 	var gens []TxGen
 	gens = append(gens, vw.txGens(nil)...)
 	recips := append([]string{}, distCfg.BaseAddrs...)
-	gens = append(gens, bankSendGen(spec.Clients, recips, true), bankSendGen(spec.Clients, recips, true))
+	gens = append(gens, bankSendGen(spec.Clients, recips, true, o.NatFaults), bankSendGen(spec.Clients, recips, true, o.NatFaults))
 	if o.Gov {
 		gens = append(gens, ew.gw.genGovTx, ew.gw.genGovTx, ew.gw.genGovTx)
 	}
